@@ -2,9 +2,28 @@ package config
 
 import (
 	"fmt"
+	"strconv"
+	"strings"
 
 	uuid "github.com/gofrs/uuid/v5"
+	"gopkg.in/robfig/cron.v2"
 )
+
+// ParseCrontab validates a crontab string. A zero step ("*/0") is rejected before
+// calling the cron library: its parser never returns for such a field.
+func ParseCrontab(crontab string) error {
+	for _, field := range strings.Fields(crontab) {
+		for _, expr := range strings.Split(field, ",") {
+			if idx := strings.Index(expr, "/"); idx >= 0 {
+				if step, err := strconv.Atoi(expr[idx+1:]); err == nil && step == 0 {
+					return fmt.Errorf("step of a crontab field should be a positive number: '%s'", crontab)
+				}
+			}
+		}
+	}
+	_, err := cron.Parse(crontab)
+	return err
+}
 
 func ConvertFloatForBinding(value interface{}, bindingName string) (*float64, error) {
 	if value == nil {
